@@ -305,9 +305,16 @@ class spec_property(_spec_property_base):
         self.fset(instance, value)
 
     def __delete__(self, instance):
+        # Deleting always discards any cached/overridden value (also when a
+        # custom deleter is present, otherwise values cached before the deletion
+        # would outlive it and `invalidated_by` could never invalidate them).
+        had_value = (
+            self.overridable or self.cache
+        ) and self.attr_name in instance.__dict__
+        if had_value:
+            del instance.__dict__[self.attr_name]
         if self.fdel is None:
-            if (self.overridable or self.cache) and self.attr_name in instance.__dict__:
-                del instance.__dict__[self.attr_name]
+            if had_value:
                 return
             raise AttributeError(
                 f"Property override for `{self._qualified_name}` has no cache or override to delete."
@@ -485,10 +492,12 @@ class classproperty(_spec_property_base):
     def __delete__(self, obj):
         if not inspect.isclass(obj):
             obj = type(obj)
+        cache_key = self._cache_key(obj)
+        had_value = cache_key in self._cache
+        if had_value:
+            del self._cache[cache_key]
         if self.fdel is None:
-            cache_key = self._cache_key(obj)
-            if cache_key in self._cache:
-                del self._cache[cache_key]
+            if had_value:
                 return
             raise AttributeError(
                 f"Class property for `{self._qualified_name}` has no cache or override to delete."
